@@ -47,6 +47,11 @@ type Gen struct {
 	fset *token.FileSet
 
 	strTheory bool
+	// wfAllocatedOnly (`opt wf=allocated`): struct cells are assumed well-formed only at allocated
+	// references. Needed where a callee returns a fresh object that points to an object the
+	// caller allocated after the assumption point (loop head / entry); the default (all cells)
+	// is contradictory there, which the reachability covers report.
+	wfAllocatedOnly bool
 
 	decls    []string
 	declared map[string]bool
@@ -499,7 +504,9 @@ func (g *Gen) wfAxiom(name, term, bound string) string {
 	// only cells of allocated objects: what sits at a reference that is not allocated yet is the
 	// initial content of a future object (a callee may return a fresh object that points to
 	// something allocated after this point)
-	w = "(=> (< r!w " + bound + ") " + w + ")"
+	if g.wfAllocatedOnly && strings.HasPrefix(name, "F:") {
+		w = "(=> (< r!w " + bound + ") " + w + ")"
+	}
 	if ai.levels == 1 {
 		return "(forall ((r!w Int)) (! " + w + " :pattern (" + v + ")))"
 	}
